@@ -28,6 +28,16 @@ def _repo():
 
 # ------------------------------------------------------------------------------------------------ C12
 
+def _tlc_retry(module, name, cfg, timeout, workers):
+    """one retry when the JVM dies for a reason that is not a verdict of the model checker (seen under heavy load)"""
+    for attempt in (1, 2):
+        run = vlib.tlc(module, name, files={name: cfg}, workers=workers, timeout=timeout, heap="4g")
+        if run.error != "other" or attempt == 2:
+            return run
+        log("  note: TLC failed without a verdict on %s, retrying once\n%s" % (name, run.stdout[-800:]))
+    return run
+
+
 def ser_generate(cfg_name, consts, timeout, workers=4):
     cfg = "SPECIFICATION Spec\nCONSTANTS\n"
     for k, val in consts.items():
@@ -38,7 +48,7 @@ def ser_generate(cfg_name, consts, timeout, workers=4):
         else:
             cfg += "  %s = %s\n" % (k, val)
     cfg += "INVARIANT ModelLaw\nINVARIANT Emit\nCHECK_DEADLOCK FALSE\n"
-    run = vlib.tlc("SerGen", cfg_name, files={cfg_name: cfg}, workers=workers, timeout=timeout, heap="6g")
+    run = _tlc_retry("SerGen", cfg_name, cfg, timeout, workers)
     vlib.tlc_must_pass(run, "SerGen %s (law on the transcription)" % cfg_name)
     cases = [json.loads(c[0]) for c in run.tagged("CASE")]
     if len(cases) != run.distinct:
@@ -66,23 +76,82 @@ def ser_replay(cases, *, variants=1, repo=None, timeout=600, seed=None):
     return vlib.read_lines(opath), wall
 
 
+def _collect(res, what):
+    """BAD / DRIFT are printed as single strings "BAD|id|line|reason" (TLC wraps long tuples over several lines, which vlib's tuple
+    parser would silently drop); the number of BAD lines must equal the counter the spec keeps."""
+    stat = [0, 0, 0, 0, 0]
+    bad, drift = [], []
+    for run in res["runs"]:
+        for s in run.tagged("STAT"):
+            for i in range(5):
+                stat[i] += int(s[i])
+        for ln in run.stdout.splitlines():
+            if ln.startswith('"BAD|') or ln.startswith('"DRIFT|'):
+                parts = json.loads(ln).split("|", 3)
+                (bad if parts[0] == "BAD" else drift).append((parts[1], int(parts[2]), parts[3]))
+    if len(bad) != stat[4]:
+        raise Inconclusive("%s: %d BAD lines parsed but the spec counted %d rejections" % (what, len(bad), stat[4]))
+    res["bad"] = bad
+    res["drift"] = drift
+    res["stat"] = {"agrees_with_both_transcriptions": stat[0], "agrees_only_with_code_as_is": stat[1],
+                   "agrees_only_with_proposed_repair": stat[2], "agrees_with_neither(DRIFT)": stat[3]}
+    return res
+
+
 def _ser_start(s):
     return s.startswith('{"ev":"ser"')
 
 
 def ser_validate(lines, nproc=4, timeout=900):
     res = vlib.validate_traces("SerObs", "SerObs.cfg", lines, nproc=nproc, timeout=timeout, is_start=_ser_start, heap="3g")
-    stat = [0, 0, 0, 0]
-    drift = []
-    for run in res["runs"]:
-        for s in run.tagged("STAT"):
-            for i in range(4):
-                stat[i] += int(s[i])
-        drift += [tuple(t) for t in run.tagged("DRIFT")]
-    res["stat"] = {"agrees_with_both_transcriptions": stat[0], "agrees_only_with_code_as_is": stat[1],
-                   "agrees_only_with_proposed_repair": stat[2], "agrees_with_neither(DRIFT)": stat[3]}
-    res["drift"] = drift
+    _collect(res, "SerObs")
     return res
+
+
+def ser_selftest(lines):
+    """binding demonstration: a recorded observation with one corrupted field must be rejected by SerObs"""
+    for ln in lines:
+        o = json.loads(ln)
+        if o["enc"] == "ok" and o["dec"] == "ok" and o["deq"] and o["teq"] and o["in"]["k"] != "leaf":
+            good = json.dumps(o)
+            o1 = json.loads(good)
+            o1["out"]["t"] = ["ptr"] + o1["out"]["t"]          # the value that came back has another dynamic type
+            o2 = json.loads(good)
+            o2["deq"] = False                                    # concrete deep-equality flag
+            o3 = json.loads(good)
+            o3["dec"] = "panic"
+            o3["pclass"] = "other"
+            res = ser_validate([good, json.dumps(o1), json.dumps(o2), json.dumps(o3)], nproc=1)
+            got = sorted(b[1] for b in res["bad"])
+            if got != [2, 3, 4]:
+                raise Inconclusive("SerObs self-test: corrupted observations not rejected as expected (rejected lines %s)" % got)
+            return {"corrupted_lines_rejected": 3, "uncorrupted_line_accepted": 1}
+    return {"skipped": "no accepted round trip in this run"}
+
+
+def cat_selftest(lines):
+    """binding demonstration: corrupted / truncated observations must be rejected by ConcatObs"""
+    for ln in lines:
+        o = json.loads(ln)
+        if o["kind"] == "msg" and len(o["chunks"]) == 3 and o["full"][0]["o"] == "ok" and o["full"][0]["v"]["content"] != "" and o["path"] == "cm":
+            good = json.dumps(o)
+            o1 = json.loads(good)
+            for f in o1["full"]:
+                f["v"]["content"] = f["v"]["content"][::-1] + "#"  # text out of order, consistently
+            for sp in o1["splits"]:
+                sp["res"]["v"]["content"] = o1["full"][0]["v"]["content"]
+            o2 = json.loads(good)
+            o2["splits"] = o2["splits"][:-1]                     # one split observation dropped
+            o3 = json.loads(good)
+            o3["full"][2]["v"]["content"] += "x"                  # third repeat differs
+            o4 = json.loads(good)
+            o4["splits"][0]["res"] = {"o": "err", "v": o4["splits"][0]["res"]["v"], "msg": "x"}
+            res = cat_validate([good, json.dumps(o1), json.dumps(o2), json.dumps(o3), json.dumps(o4)], nproc=1)
+            got = sorted((b[1], b[2].split(":")[0]) for b in res["bad"])
+            if got != [(2, "rule"), (3, "incomplete-observation"), (4, "nondeterministic"), (5, "rechunk")]:
+                raise Inconclusive("ConcatObs self-test: corrupted observations not rejected as expected: %s" % got)
+            return {"corrupted_lines_rejected": 4, "uncorrupted_line_accepted": 1}
+    return {"skipped": "no suitable observation in this run"}
 
 
 def ser_skeleton(a):
@@ -186,7 +255,8 @@ def c12(tier, repo=None):
                    "non-trivial = Marshal succeeded (the value is claimed representable)",
            "samples": [obs[k] for k in some], "exhaustive": exhaustive, "generators": gens, "variants_per_shape": variants,
            "trace_validation_states": res["states"], "rejected": len(bad), "rejected_by_reason": by_reason, "confirmed": confirmed,
-           "known_findings": n_known, "transcription_agreement": res["stat"], "drift": [list(d) for d in res["drift"][:20]]}
+           "known_findings": n_known, "transcription_agreement": res["stat"], "drift": [list(d) for d in res["drift"][:20]],
+           "selftest": ser_selftest(lines)}
     vlib.write_evidence("C12", tier, "model_checking", cov, assumptions=[
         "a panic of Marshal/Unmarshal is not 'returning an error': it is rejected; an error from Unmarshal (after a successful Marshal) counts as failing loudly",
         "leaf fidelity (numeric ranges, UTF-8, HTML-significant characters) is sampled by a boundary palette, not decided",
@@ -208,7 +278,7 @@ def cat_generate(name, fams, maxlen, longfams, fx, timeout, workers=4):
     q = lambda xs: "{" + ", ".join('"%s"' % x for x in sorted(xs)) + "}"
     cfg = ("SPECIFICATION Spec\nCONSTANTS\n  Fams = %s\n  MaxLen = %d\n  LongFams = %s\n  Fx = \"%s\"\n"
            "INVARIANT ModelLaw\nINVARIANT CallOrderFree\nINVARIANT Emit\nCHECK_DEADLOCK FALSE\n" % (q(fams), maxlen, q(longfams), fx))
-    run = vlib.tlc("ConcatGen", name, files={name: cfg}, workers=workers, timeout=timeout, heap="6g")
+    run = _tlc_retry("ConcatGen", name, cfg, timeout, workers)
     vlib.tlc_must_pass(run, "ConcatGen %s (law on the transcription, %s)" % (name, fx))
     cases = [json.loads(c[0]) for c in run.tagged("CASE")]
     if len(cases) != run.distinct:
@@ -234,16 +304,7 @@ def cat_replay(cases, *, repo=None, timeout=900):
 def cat_validate(lines, nproc=4, timeout=900):
     res = vlib.validate_traces("ConcatObs", "ConcatObs.cfg", lines, nproc=nproc, timeout=timeout,
                                is_start=lambda s: s.startswith('{"ev":"cat"'), heap="3g")
-    stat = [0, 0, 0, 0]
-    drift = []
-    for run in res["runs"]:
-        for s in run.tagged("STAT"):
-            for i in range(4):
-                stat[i] += int(s[i])
-        drift += [tuple(t) for t in run.tagged("DRIFT")]
-    res["stat"] = {"agrees_with_both_transcriptions": stat[0], "agrees_only_with_code_as_is": stat[1],
-                   "agrees_only_with_proposed_repair": stat[2], "agrees_with_neither(DRIFT)": stat[3]}
-    res["drift"] = drift
+    _collect(res, "ConcatObs")
     return res
 
 
@@ -251,7 +312,7 @@ def cat_sig(reason):
     return reason.replace(":", "/")
 
 
-ALL_FAMS = ["hdr", "calls", "callsT", "calls2", "meta", "extra", "list", "map", "str", "int", "acc", "plain"]
+ALL_FAMS = ["hdr", "calls", "callsT", "calls2", "many", "meta", "extra", "list", "map", "str", "int", "acc", "plain"]
 
 
 def c14(tier, repo=None):
@@ -260,10 +321,10 @@ def c14(tier, repo=None):
     log("[C14] tier=%s seed=%d repo=%s" % (tier, vlib.SEED, repo))
     rnd = random.Random(vlib.SEED * 15485863 + 14)
     if tier == "quick":
-        plan = [("ConcatGen_q", ALL_FAMS, 3, ["hdr", "calls", "meta", "extra", "map", "str", "int", "acc", "plain"], 600)]
+        plan = [("ConcatGen_q", ALL_FAMS, 3, ["hdr", "calls", "many", "meta", "extra", "map", "str", "int", "acc", "plain"], 600)]
         limit = None
     else:
-        plan = [("ConcatGen_t", ALL_FAMS, 4, ["meta", "extra", "map", "str", "int", "acc", "plain", "callsT", "calls2", "list"], 1500),
+        plan = [("ConcatGen_t", ALL_FAMS, 4, ["many", "meta", "extra", "map", "str", "int", "acc", "plain", "callsT", "calls2", "list"], 1500),
                 ("ConcatGen_t4", ["hdr", "calls"], 4, ["hdr", "calls"], 1700)]
         limit = 150000
     cases, gens, states, trans = [], [], 0, 0
@@ -334,7 +395,8 @@ def c14(tier, repo=None):
                    "non-trivial = at least two chunks and the concatenation succeeded",
            "samples": [obs[k] for k in some], "exhaustive": exhaustive, "generators": gens,
            "trace_validation_states": res["states"], "rejected": len(bad), "rejected_by_reason": by_reason, "confirmed": confirmed,
-           "known_findings": n_known, "transcription_agreement": res["stat"], "drift": [list(d) for d in res["drift"][:20]]}
+           "known_findings": n_known, "transcription_agreement": res["stat"], "drift": [list(d) for d in res["drift"][:20]],
+           "selftest": cat_selftest(lines)}
     vlib.write_evidence("C14", tier, "model_checking", cov, assumptions=[
         "outcome classes are value / error / panic; error texts are not compared (which failing key of a map is reported first depends on map iteration order)",
         "besides totality, determinism and the re-chunking law, the rule demands the field semantics named by the property record: text and tool-call "
@@ -349,4 +411,38 @@ def c14(tier, repo=None):
     return code
 
 
+def _replay_verdict(prop, bad, sigs_of, case):
+    verdict = vlib.Verdict(prop)
+    for key, _, reason in bad:
+        for sig in sigs_of(reason):
+            verdict.violation(sig, case, reason)
+    code, n_new, n_known = verdict.finish(max_report=0)
+    for key, _, reason in bad:
+        log("  replayed %s: rejected, %s" % (key, reason))
+    if not bad:
+        log("  replay: the observation is accepted now")
+    if n_new:
+        log("VIOLATION property=%s replay=%s" % (prop, case.get("_path", "")))
+    return 1 if n_new else 0
+
+
+def replay_c12(path):
+    rep = json.load(open(path))
+    case, o = rep["case"]["case"], rep["case"]["observation"]
+    k = int(o["id"].rsplit(".", 1)[1]) if "." in o["id"] else 0
+    lines, _ = ser_replay([case], variants=k + 1 if "." in o["id"] else 1)
+    lines = [ln for ln in lines if json.loads(ln)["id"] == o["id"]]
+    res = ser_validate(lines, nproc=1)
+    return _replay_verdict("C12", res["bad"], ser_sigs, {"_path": path, "case": case})
+
+
+def replay_c14(path):
+    rep = json.load(open(path))
+    case = rep["case"]["case"]
+    lines, _ = cat_replay([case])
+    res = cat_validate(lines, nproc=1)
+    return _replay_verdict("C14", res["bad"], lambda r: [cat_sig(r)], {"_path": path, "case": case})
+
+
 CHECKS = {"C12": c12, "C14": c14}
+REPLAY = {"C12": replay_c12, "C14": replay_c14}
